@@ -76,8 +76,8 @@ def main():
             rc, out = run(["git", "-C", "/repo", "apply", "--3way", patch], "/repo")
         if rc != 0:
             # a later fix changed the same lines: keep the stored result, only note it
-            run(["git", "-C", "/repo", "checkout", "--", "."], "/repo")
             run(["git", "-C", "/repo", "reset", "-q"], "/repo")
+            run(["git", "-C", "/repo", "checkout", "--", "."], "/repo")
             mp = os.path.join("/verif/seeded", sid, "meta.json")
             if os.path.exists(mp):
                 m = json.load(open(mp))
@@ -103,8 +103,9 @@ def main():
             rcq, outq = run(["/verif/bin/gaeacheck", "-prop", prop, "-tier", "quick", "-no-evidence"], "/verif")
             log["quick_cmd_exit"] = rcq
     finally:
-        run(["git", "-C", "/repo", "checkout", "--", "."], "/repo")
+        # --3way stages its result: unstage first, then restore the files
         run(["git", "-C", "/repo", "reset", "-q"], "/repo")
+        run(["git", "-C", "/repo", "checkout", "--", "."], "/repo")
     log["caught_by"] = {k: v for k, v in caught.items()}
     log["caught"] = bool(caught)
     log["caught_by_target_property"] = prop in caught
